@@ -76,16 +76,18 @@ func appendFieldList(dst []byte, kvList []interface{}, stack bool) []byte {
 			}
 
 			if stack && ErrorStackMarshaler != nil {
-				dst = enc.AppendKey(dst, ErrorStackFieldName)
 				switch m := ErrorStackMarshaler(val).(type) {
 				case nil:
 				case error:
 					if m != nil && !isNilValue(m) {
+						dst = enc.AppendKey(dst, ErrorStackFieldName)
 						dst = enc.AppendString(dst, m.Error())
 					}
 				case string:
+					dst = enc.AppendKey(dst, ErrorStackFieldName)
 					dst = enc.AppendString(dst, m)
 				default:
+					dst = enc.AppendKey(dst, ErrorStackFieldName)
 					dst = enc.AppendInterface(dst, m)
 				}
 			}
